@@ -121,6 +121,14 @@ def ops(group):
         for a in MEDS:
             at = {'1': 0, '2': [], '5': 100, '4': MEDS[a], '14': {'afi_safi': [1, 133], 'nexthop': '', 'nlri': [FS['f1'][0]]}}
             o['send-fs-ann-f1-%s' % a] = ('rest', {'attr': at}, [('out', 'flowspec', 'ann', 'f1', a)])
+        # the same rule f2 with its members written in the other order by the REST client (equal as a dictionary)
+        f2rev = {'5': FS['f2'][0]['5'], '1': FS['f2'][0]['1']}
+        for a in MEDS:
+            at = {'1': 0, '2': [], '5': 100, '4': MEDS[a], '14': {'afi_safi': [1, 133], 'nexthop': '', 'nlri': [FS['f2'][0]]}}
+            o['send-fs-ann-f2-%s' % a] = ('rest', {'attr': at}, [('out', 'flowspec', 'ann', 'f2', a)])
+        at = {'1': 0, '2': [], '5': 100, '4': MEDS['a1'], '14': {'afi_safi': [1, 133], 'nexthop': '', 'nlri': [f2rev]}}
+        o['send-fs-ann-f2rev-a1'] = ('rest', {'attr': at}, [('out', 'flowspec', 'ann', 'f2', 'a1')])
+        o['send-fs-wd-f2rev'] = ('rest', {'attr': {'15': {'afi_safi': [1, 133], 'withdraw': [f2rev]}}}, [('out', 'flowspec', 'wd', 'f2', None)])
         o['send-fs-wd-f1'] = ('rest', {'attr': {'15': {'afi_safi': [1, 133], 'withdraw': [FS['f1'][0]]}}}, [('out', 'flowspec', 'wd', 'f1', None)])
     if group in ('vpn', 'mixed'):
         for v in VPN:
@@ -146,7 +154,14 @@ def ops(group):
     o['DROP-notification'] = ('drop', 'notification', [('drop',)])     # the agent closes (peer sent a NOTIFICATION)
     o['DROP-stop-start'] = ('drop', 'stop-start', [('drop',)])         # the operator stops and starts the peer
     if group == 'mixed':
-        keep = ['rx-ann-p1-a1', 'rx-wd-p1', 'rx-fs-ann-f1-a1', 'rx-fs-wd-f1', 'rx-vpn-ann-v1-a1', 'rx-vpn-wd-v1',
+        # one UPDATE that carries IPv4 NLRI / withdrawn routes AND an MP attribute of another family (RFC 4760 allows it)
+        nl = bytes([len(FS['f1'][1])]) + FS['f1'][1]
+        mpf = attr(0x80, 14, struct.pack('!HBB', 1, 133, 0) + b'\x00' + nl)
+        o['rx-ann-p2-a2+fs-ann-f1'] = ('rx', wire.frame(wire.UPDATE, update_body(b'', base_attrs('a2') + mpf, P['p2'][1])),
+                                       [('in', 'ipv4', 'ann', 'p2', 'a2'), ('in', 'flowspec', 'ann', 'f1', 'a2')])
+        o['rx-wd-p1+fs-wd-f1'] = ('rx', wire.frame(wire.UPDATE, update_body(P['p1'][1], attr(0x80, 15, struct.pack('!HB', 1, 133) + nl), b'')),
+                                  [('in', 'ipv4', 'wd', 'p1', None), ('in', 'flowspec', 'wd', 'f1', None)])
+        keep = ['rx-ann-p2-a2+fs-ann-f1', 'rx-wd-p1+fs-wd-f1', 'rx-ann-p1-a1', 'rx-wd-p1', 'rx-fs-ann-f1-a1', 'rx-fs-wd-f1', 'rx-vpn-ann-v1-a1', 'rx-vpn-wd-v1',
                 'send-ann-p1-a1', 'send-fs-ann-f1-a1', 'DROP', 'DROP-notification']
         o = {k: o[k] for k in keep}
     return o
